@@ -19,11 +19,12 @@ TRUSTED_BASE = [
     "extraction (ExtrOcamlBasic only) and the OCaml integer driver",
 ]
 ASSUMPTIONS = ["error messages themselves are not compared, only the ', line N, column M' suffix"]
-TECHNIQUE = "Coq proof that the model of Token.position equals the line/column specification for every text and offset; differential runs on multi-line rejected queries checking offset range, line and column"
+TECHNIQUE = ("Coq proofs on the model: Token.position equals the line/column specification for every text and offset; lexer state-machine invariant (text partition, tokens are slices of the text) "
+             "and token-stream invariant through all parser functions give: every error offset lies inside the text; differential runs on multi-line rejected queries checking offset range, line and column")
 LEVEL = "proof"
-LEVEL_TEXT = ("Theorem C19_line_col (all texts, all offsets 0..len). The half 'the offset of every error lies inside the text' is stated in Props/C19.v and decided only by correspondence "
-              "and a range test on every rejected input (partial).")
-LEVEL_NOTE = "Partial for C19_offset_in_text. Trusted: Coq kernel; Spec/Position.v; correspondence; extraction and driver."
+LEVEL_TEXT = ("Theorems C19_line_col (all texts, all offsets 0..len) and C19_offset_in_text (every JSONPathError compile() raises in the model - lexer, tokenize, every parser function - carries an offset "
+              "0 <= i <= len(text); the synthetic EOF token with index -1 never becomes current), C19_tokens_are_slices. The model's errors and offsets are tied to the code by correspondence on rejected inputs.")
+LEVEL_NOTE = "Trusted: Coq kernel; Spec/Position.v; Model/Lex.v, Model/Parse.v, Model/Tokens.v as transcriptions of lex.py, parse.py, tokens.py (correspondence); extraction and driver."
 
 SUFFIX = re.compile(r", line (-?\d+), column (-?\d+)$")
 
